@@ -193,5 +193,52 @@ theorem gap_pos_of_disc_neg {a b c : ℝ} (ha : 0 < a) (hD : b * b - a * c < 0) 
   have : 0 < a * (a * t * t - 2 * b * t + c) := by nlinarith [mul_self_nonneg (a * t - b)]
   exact (mul_pos_iff_of_pos_left ha).1 this
 
+/-! ## C routine of the Coulomb bounding potential (`inverse_power_coulomb_bounding_potential.c`)
+
+`q = sy*sy + sz*sz`; `K = prefactor_product`. -/
+
+/-- C `potential` -/
+def cbPot (K sx q : ℝ) : ℝ := K / Real.sqrt (sx * sx + q)
+
+/-- the part of C `displacement()` after the whole-box laps have been taken out (`dE` is the remainder
+budget `fmod(potential_change, potential_change_per_system_length)`) -/
+def cbRemainder (K L sx q dE : ℝ) : ℝ :=
+  let half := L / 2
+  let cur := cbPot K sx q
+  let pot0 := cbPot K 0 q
+  let potHalf := cbPot K half q
+  if K > 0 then
+    if sx ≤ 0 then
+      (half + sx) + (half - Real.sqrt ((K / (potHalf + dE)) * (K / (potHalf + dE)) - q))
+    else if dE ≥ pot0 - cur then
+      (sx + half) + (half - Real.sqrt ((K / (potHalf + (dE - (pot0 - cur)))) * (K / (potHalf + (dE - (pot0 - cur)))) - q))
+    else
+      sx - Real.sqrt ((K / (cur + dE)) * (K / (cur + dE)) - q)
+  else
+    if sx > 0 then
+      sx + (0 + Real.sqrt ((K / (pot0 + dE)) * (K / (pot0 + dE)) - q))
+    else if dE ≥ potHalf - cur then
+      (sx + L) + (0 + Real.sqrt ((K / (pot0 + (dE - (potHalf - cur)))) * (K / (pot0 + (dE - (potHalf - cur)))) - q))
+    else
+      sx + Real.sqrt ((K / (cur + dE)) * (K / (cur + dE)) - q)
+
+/-- `potential_change_per_system_length` -/
+def cbPerLap (K L q : ℝ) : ℝ := |cbPot K 0 q - cbPot K (L / 2) q|
+
+/-- C `displacement()`: `floor(dE / perLap) * L`, then the remainder stage with
+`fmod(dE, perLap) = dE - floor(dE / perLap) * perLap` (for `dE ≥ 0`, `perLap > 0`) -/
+def cbDisplacement (K L sx q dE : ℝ) : ℝ :=
+  (⌊dE / cbPerLap K L q⌋ : ℝ) * L +
+    cbRemainder K L sx q (dE - (⌊dE / cbPerLap K L q⌋ : ℝ) * cbPerLap K L q)
+
+theorem cbPot_eq_pot (K sx q : ℝ) : cbPot K sx q = pot K 1 (sx * sx + q) := by
+  unfold cbPot pot; rw [Real.sqrt_eq_rpow]
+
+theorem rpow_two_div_one (x : ℝ) : x ^ ((2:ℝ) / 1) = x * x := by
+  rw [div_one, Real.rpow_two, sq]
+
+/-- `CellBoundingPotential.standard_velocity_displacement`: `dE / rate` if `rate > 0`, else `inf` -/
+def cellBounding (rate dE : ℝ) : Option ℝ := if rate > 0 then some (dE / rate) else none
+
 end
 end JF.DispR
